@@ -14,6 +14,9 @@
 //	sw2    flow rules of `sw2` switch between lists that never reject: every request must pass;
 //	fixedB `fixedB` has one rejecting flow rule loaded once; churn on other resources must never let a request pass;
 //	fixedP `fixedP` has no rule in any module: every request must pass, whatever is churned elsewhere.
+//	settled  after a flow switch of `sw` / a system rule switch has RETURNED (one goroutine per module does all the
+//	       switching, so no other switch is in progress), that goroutine's own next requests must be decided by the list
+//	       it has just installed — not by a replaced one that a concurrent request re-cached;
 //	cbB    has an open circuit breaker, isoB a fully occupied isolation rule: while the rules of OTHER resources are
 //	       churned (valid lists, all-invalid lists, clears, global reloads that keep cbB / isoB) every request on them
 //	       must stay blocked by that breaker / that isolation rule;
@@ -170,10 +173,32 @@ func fr(id, resName string, th float64) *flow.Rule {
 
 // the rule lists `sw` switches between: each ends in a rejecting rule
 func swLists() [][]*flow.Rule {
+	last := func(id string, q uint32) *flow.Rule {
+		r := fr(id, "sw", 0)
+		r.MaxQueueingTimeMs = q // irrelevant for Reject, but makes the rules unequal: no controller is reused across lists
+		return r
+	}
 	return [][]*flow.Rule{
-		{fr("A1", "sw", huge), fr("A2", "sw", 0)},
-		{fr("B1", "sw", 0)},
-		{fr("C1", "sw", huge), fr("C2", "sw", huge+1), fr("C3", "sw", 0)},
+		{fr("A1", "sw", huge), last("A2", 1)},
+		{last("B1", 2)},
+		{fr("C1", "sw", huge), fr("C2", "sw", huge+1), last("C3", 3)},
+	}
+}
+
+var swLastOf = []string{"A2", "B1", "C3"}
+
+// settledSw: called by the only goroutine that switches flow rules, right after a switch to list k has returned: its
+// own next requests must be decided by THAT list
+func settledSw(k int) {
+	for i := 0; i < 2; i++ {
+		_, b := sentinel.Entry("sw", sentinel.WithTrafficType(base.Outbound))
+		atomic.AddInt64(&res.OracleChecked, 1)
+		count(res.Outcomes, "settled:flow")
+		if b == nil {
+			bad("settled/flow: after the switch of sw to list %d had returned, a request passed", k)
+		} else if rl, ok := b.TriggeredRule().(*flow.Rule); !ok || rl.ID != swLastOf[k] {
+			bad("settled/flow: after the switch of sw to list %d (last rule %s) had returned, a request was decided by rule %v of another list", k, swLastOf[k], b.TriggeredRule())
+		}
 	}
 }
 
@@ -386,7 +411,9 @@ func main() {
 		sl, s2 := swLists(), sw2Lists()
 		switch r.Intn(6) {
 		case 0, 1:
-			flow.LoadRulesOfResource("sw", sl[r.Intn(len(sl))])
+			k := r.Intn(len(sl))
+			flow.LoadRulesOfResource("sw", sl[k])
+			settledSw(k)
 			atomic.AddInt64(&res.Switches, 1)
 			count(res.Churn, "flow.LoadRulesOfResource(sw)")
 		case 2:
@@ -406,7 +433,8 @@ func main() {
 		case 5:
 			// global replacement that keeps the oracle resources' meaning
 			all := []*flow.Rule{fr("Q", "fixedB", 0)}
-			all = append(all, sl[r.Intn(len(sl))]...)
+			k := r.Intn(len(sl))
+			all = append(all, sl[k]...)
 			all = append(all, s2[r.Intn(len(s2))]...)
 			for _, c := range churnRes {
 				if r.Intn(2) == 0 {
@@ -414,16 +442,51 @@ func main() {
 				}
 			}
 			flow.LoadRules(all)
+			settledSw(k)
 			atomic.AddInt64(&res.Switches, 1)
 			count(res.Churn, "flow.LoadRules")
 		}
 		maybeYield(r)
 	})
+	// isoS: its single slot is occupied from the start (no rule yet); the isolation churner — the only goroutine that
+	// switches isolation rules — toggles its rule and checks its own next request after each switch has returned
+	isoSHolder, _ := sentinel.Entry("isoS", sentinel.WithTrafficType(base.Outbound))
+	isoSRule := &isolation.Rule{Resource: "isoS", MetricType: isolation.Concurrency, Threshold: 1}
+	isoSOn := false
+	withIsoS := func(rs []*isolation.Rule) []*isolation.Rule {
+		if isoSOn {
+			rs = append(rs, isoSRule)
+		}
+		return rs
+	}
+	settledIso := func(what string) {
+		e, b := sentinel.Entry("isoS", sentinel.WithTrafficType(base.Outbound))
+		atomic.AddInt64(&res.OracleChecked, 1)
+		count(res.Outcomes, "settled:isolation")
+		if isoSOn && (b == nil || b.BlockType() != base.BlockTypeIsolation) {
+			bad("settled/isolation: after %s had returned with the rule of isoS (threshold 1, slot occupied) installed, a request was not blocked by it", what)
+		} else if !isoSOn && b != nil {
+			bad("settled/isolation: after %s had returned with no rule on isoS, a request was blocked: %v", what, b.Error())
+		}
+		if b == nil {
+			e.Exit()
+		}
+	}
 	spawn("churn-isolation", func(r *rand.Rand) {
 		c := pick(r, churnRes)
+		if r.Intn(3) == 0 {
+			if isoSOn {
+				isolation.ClearRulesOfResource("isoS")
+			} else {
+				isolation.LoadRulesOfResource("isoS", []*isolation.Rule{isoSRule})
+			}
+			isoSOn = !isoSOn
+			settledIso("the per-resource switch")
+		}
 		switch r.Intn(4) {
 		case 0:
-			isolation.LoadRules([]*isolation.Rule{isoBRule(), {Resource: c, MetricType: isolation.Concurrency, Threshold: uint32(1 + r.Intn(8))}})
+			isolation.LoadRules(withIsoS([]*isolation.Rule{isoBRule(), {Resource: c, MetricType: isolation.Concurrency, Threshold: uint32(1 + r.Intn(8))}}))
+			settledIso("LoadRules")
 			count(res.Churn, "isolation.LoadRules")
 		case 1:
 			isolation.LoadRulesOfResource(c, []*isolation.Rule{{Resource: c, MetricType: isolation.Concurrency, Threshold: uint32(1 + r.Intn(8))}})
@@ -436,20 +499,47 @@ func main() {
 			// (ClearRules itself = LoadRules(nil) would legitimately free isoB)
 			isolation.LoadRulesOfResource(c, []*isolation.Rule{{Resource: c, MetricType: isolation.Concurrency, Threshold: 0}})
 			isolation.ClearRulesOfResource(c)
-			isolation.LoadRules([]*isolation.Rule{isoBRule()})
+			isolation.LoadRules(withIsoS([]*isolation.Rule{isoBRule()}))
+			settledIso("LoadRules")
 			count(res.Churn, "isolation.invalid+clear+reload")
 		}
 		maybeYield(r)
 	})
+	hotSOn := false // only the hotspot churner touches hotS (and does all global hotspot loads / clears)
 	spawn("churn-hotspot", func(r *rand.Rand) {
 		c := pick(r, churnRes)
 		mk := func() *hotspot.Rule {
 			return &hotspot.Rule{Resource: c, MetricType: hotspot.MetricType(r.Intn(2)), ControlBehavior: hotspot.Reject, ParamIndex: 0,
 				Threshold: int64(1 + r.Intn(20)), BurstCount: int64(r.Intn(3)), DurationInSec: 1, ParamsMaxCapacity: int64(2 + r.Intn(4))}
 		}
+		settledHot := func(what string) {
+			e, b := sentinel.Entry("hotS", sentinel.WithTrafficType(base.Outbound), sentinel.WithArgs(7))
+			atomic.AddInt64(&res.OracleChecked, 1)
+			count(res.Outcomes, "settled:hotspot")
+			if hotSOn && (b == nil || b.BlockType() != base.BlockTypeHotSpotParamFlow) {
+				bad("settled/hotspot: after %s had returned with the threshold-0 rule of hotS installed, a request was not blocked by it", what)
+			} else if !hotSOn && b != nil {
+				bad("settled/hotspot: after %s had returned with no rule on hotS, a request was blocked: %v", what, b.Error())
+			}
+			if b == nil {
+				e.Exit()
+			}
+		}
+		if r.Intn(3) == 0 {
+			if hotSOn {
+				hotspot.ClearRulesOfResource("hotS")
+			} else {
+				hotspot.LoadRulesOfResource("hotS", []*hotspot.Rule{{Resource: "hotS", MetricType: hotspot.QPS, ControlBehavior: hotspot.Reject,
+					ParamIndex: 0, Threshold: 0, DurationInSec: 1, ParamsMaxCapacity: 4}})
+			}
+			hotSOn = !hotSOn
+			settledHot("the per-resource switch")
+		}
 		switch r.Intn(4) {
 		case 0:
 			hotspot.LoadRules([]*hotspot.Rule{mk()})
+			hotSOn = false
+			settledHot("LoadRules (without hotS)")
 			count(res.Churn, "hotspot.LoadRules")
 		case 1:
 			hotspot.LoadRulesOfResource(c, []*hotspot.Rule{mk(), mk()})
@@ -459,6 +549,8 @@ func main() {
 			count(res.Churn, "hotspot.ClearRulesOfResource")
 		case 3:
 			hotspot.ClearRules()
+			hotSOn = false
+			settledHot("ClearRules")
 			count(res.Churn, "hotspot.ClearRules")
 		}
 		maybeYield(r)
@@ -497,17 +589,55 @@ func main() {
 		}
 		maybeYield(r)
 	})
-	spawn("churn-system", func(r *rand.Rand) {
-		switch r.Intn(3) {
-		case 0, 1:
-			system.LoadRules([]*system.Rule{{MetricType: system.InboundQPS, TriggerCount: huge + float64(r.Intn(9))},
+	// system rules are global: ONE goroutine switches them between a list that blocks every inbound request (SB), lists
+	// that never block, and none — and checks, each time a switch has returned, that its own next inbound requests are
+	// decided by the list it has just installed ("settled": nobody else switches system rules), while the traffic
+	// goroutines keep sending inbound requests through the switch.
+	for i := 0; i < 2; i++ { // inbound pressure through every system rule switch
+		spawn(fmt.Sprintf("inbound%d", i), func(r *rand.Rand) {
+			for k := 0; k < 20; k++ {
+				if e, b := sentinel.Entry("sysP", sentinel.WithTrafficType(base.Inbound)); b == nil {
+					e.Exit()
+				}
+			}
+			count(res.Requests, "sysP-inbound-x20")
+		})
+	}
+	spawn("settle-system", func(r *rand.Rand) {
+		blocking := false
+		switch r.Intn(4) {
+		case 0:
+			system.LoadRules([]*system.Rule{{ID: "SB", MetricType: system.InboundQPS, TriggerCount: 0}})
+			blocking = true
+			count(res.Churn, "system.LoadRules(block-all)")
+		case 1, 2:
+			system.LoadRules([]*system.Rule{{ID: "SP", MetricType: system.InboundQPS, TriggerCount: huge + float64(r.Intn(9))},
 				{MetricType: system.Concurrency, TriggerCount: huge}, {MetricType: system.Load, TriggerCount: huge, Strategy: system.NoAdaptive}})
-			count(res.Churn, "system.LoadRules")
-		case 2:
+			count(res.Churn, "system.LoadRules(pass-all)")
+		case 3:
 			system.ClearRules()
 			count(res.Churn, "system.ClearRules")
 		}
-		maybeYield(r)
+		atomic.AddInt64(&res.Switches, 1)
+		for i := 0; i < 3; i++ {
+			e, b := sentinel.Entry("sysP", sentinel.WithTrafficType(base.Inbound))
+			atomic.AddInt64(&res.OracleChecked, 1)
+			count(res.Outcomes, "settled:system")
+			switch {
+			case blocking && b == nil:
+				bad("settled/system: after LoadRules(block-all) had returned, an inbound request passed (decided by a replaced rule list)")
+			case blocking && b.BlockType() != base.BlockTypeSystemFlow:
+				bad("settled/system: blocked by %v instead of the system rule", b.BlockType())
+			case !blocking && b != nil:
+				bad("settled/system: after a switch to a never-blocking / empty system rule list had returned, an inbound request was blocked: %v", b.Error())
+			}
+			if b == nil {
+				e.Exit()
+			}
+			if i == 0 {
+				maybeYield(r)
+			}
+		}
 	})
 	if *withOutlier {
 		spawn("churn-outlier", func(r *rand.Rand) {
@@ -728,6 +858,9 @@ func main() {
 	}
 	if !res.Deadlock {
 		isoHolder.Exit()
+		if isoSHolder != nil {
+			isoSHolder.Exit()
+		}
 		for _, n := range stat.ResourceNodeList() {
 			if n.ResourceName() == "hsu" || n.ResourceName() == "osvc" {
 				continue // provoked slot-chain panics skip the statistic slots there (C01's panic-pass-gauge finding)
